@@ -789,6 +789,13 @@ func (c *Ctx) siteHasDominatingGuard(s bceSite) (guarded, found bool) {
 				for _, o := range ops {
 					collect(o, 0)
 				}
+				// an operand that is the result of an in-module helper (the bounds computation was
+				// moved out): guarded when the helper branches on the value it returns
+				for v := range vars {
+					if calleeGuardsResult(v) {
+						return true, true
+					}
+				}
 				want := map[string]bool{}
 				switch x := in.(type) { // a test of len(base) guards constant bounds
 				case *ssa.IndexAddr:
@@ -959,4 +966,71 @@ func c15PrefetchMeasured(c *Ctx) {
 		}
 	}
 	c.R.Sites += n
+}
+
+// calleeGuardsResult: v is (a component of) the result of a call to a module
+// function, and that function contains a branch whose condition depends on a
+// value that flows into the returned result (the clamp / the -1 test travelled
+// with the computation into a helper).
+func calleeGuardsResult(v ssa.Value) bool {
+	idx := 0
+	var call *ssa.Call
+	switch x := v.(type) {
+	case *ssa.Extract:
+		idx = x.Index
+		call, _ = x.Tuple.(*ssa.Call)
+	case *ssa.Call:
+		call = x
+	}
+	if call == nil {
+		return false
+	}
+	callee := call.Call.StaticCallee()
+	if callee == nil || !load.InModule(callee) || callee.Blocks == nil {
+		return false
+	}
+	flows := map[ssa.Value]bool{}
+	var collect func(v ssa.Value, d int)
+	collect = func(v ssa.Value, d int) {
+		if v == nil || d > 5 || flows[v] {
+			return
+		}
+		if _, isConst := v.(*ssa.Const); isConst {
+			return
+		}
+		flows[v] = true
+		switch y := v.(type) {
+		case *ssa.BinOp:
+			collect(y.X, d+1)
+			collect(y.Y, d+1)
+		case *ssa.Convert:
+			collect(y.X, d+1)
+		case *ssa.Phi:
+			for _, e := range y.Edges {
+				collect(e, d+1)
+			}
+		}
+	}
+	for _, b := range callee.Blocks {
+		for _, in := range b.Instrs {
+			if ret, ok := in.(*ssa.Return); ok && idx < len(ret.Results) {
+				collect(ret.Results[idx], 0)
+			}
+		}
+	}
+	for _, b := range callee.Blocks {
+		if len(b.Instrs) == 0 {
+			continue
+		}
+		iff, ok := b.Instrs[len(b.Instrs)-1].(*ssa.If)
+		if !ok {
+			continue
+		}
+		for fv := range flows {
+			if dependsOn(iff.Cond, fv, 0) || dependsOnCmp(iff.Cond, fv, 0) {
+				return true
+			}
+		}
+	}
+	return false
 }
